@@ -2022,6 +2022,52 @@ impl Vm {
     }
 }
 
+/// Verification hooks (feature `verif_hooks`): the intern table in isolation, with caller-chosen
+/// hashes, so that growth, long probe chains and full-hash collisions can be forced.
+#[cfg(feature = "verif_hooks")]
+pub mod verif_strstore {
+    use crate::memory::{Gc, Root};
+    use crate::object::ObjString;
+
+    pub struct Store {
+        inner: super::string_store::ObjStringStore,
+    }
+
+    impl Store {
+        pub fn new() -> Self {
+            Store {
+                inner: super::string_store::ObjStringStore::new(),
+            }
+        }
+
+        /// Address of the interned string with these bytes, if any.
+        pub fn get(&self, hash: u64, text: &str) -> Option<usize> {
+            self.inner.get((hash, text)).map(|root| root.verif_addr())
+        }
+
+        /// Creates a string object with the given hash and inserts it (as new_gc_obj_string does
+        /// after a miss); returns its address.
+        pub fn insert(&mut self, hash: u64, text: &str) -> usize {
+            let string = Root::new(ObjString::new(Gc::dangling(), text, hash));
+            let addr = string.verif_addr();
+            self.inner.insert(string);
+            addr
+        }
+
+        pub fn audit(&self) -> Result<(usize, usize), String> {
+            self.inner.verif_audit()
+        }
+    }
+}
+
+#[cfg(feature = "verif_hooks")]
+impl Vm {
+    /// Structural audit of the live intern table: (entries, capacity) or what is wrong.
+    pub fn verif_audit_string_store(&self) -> Result<(usize, usize), String> {
+        self.string_store.verif_audit()
+    }
+}
+
 mod string_store {
     use std::mem;
 
@@ -2093,6 +2139,61 @@ mod string_store {
 
             self.entries = new_entries;
             self.mask = mask;
+        }
+    }
+
+    #[cfg(feature = "verif_hooks")]
+    impl ObjStringStore {
+        /// Structural audit of the table: (entries, capacity) or a description of what is wrong.
+        pub(super) fn verif_audit(&self) -> Result<(usize, usize), String> {
+            let capacity = self.entries.len();
+            if capacity == 0 || capacity & (capacity - 1) != 0 {
+                return Err(format!("capacity {} is not a power of two", capacity));
+            }
+            if self.mask != capacity - 1 {
+                return Err(format!("mask {:#x} does not match capacity {}", self.mask, capacity));
+            }
+            let occupied = self.entries.iter().filter(|e| e.is_some()).count();
+            if occupied != self.size {
+                return Err(format!("size field is {} but {} slots are occupied", self.size, occupied));
+            }
+            if self.size > (capacity as f64 * MAX_LOAD) as usize {
+                return Err(format!("load {} of {} exceeds the maximum load factor", self.size, capacity));
+            }
+            let mut seen = std::collections::HashMap::new();
+            for (slot, entry) in self.entries.iter().enumerate() {
+                let entry = match entry {
+                    Some(entry) => entry,
+                    None => continue,
+                };
+                if let Some(other) = seen.insert(entry.as_str().to_owned(), slot) {
+                    return Err(format!(
+                        "the same bytes are stored twice (slots {} and {}): {:?}",
+                        other,
+                        slot,
+                        entry.as_str()
+                    ));
+                }
+                // the entry must be reachable from its home slot without crossing an empty slot
+                let mut index = (entry.hash as usize) & self.mask;
+                let mut steps = 0;
+                loop {
+                    if index == slot {
+                        break;
+                    }
+                    if self.entries[index].is_none() || steps > capacity {
+                        return Err(format!(
+                            "entry {:?} in slot {} is not reachable from its home slot {}",
+                            entry.as_str(),
+                            slot,
+                            (entry.hash as usize) & self.mask
+                        ));
+                    }
+                    index = (index + 1) & self.mask;
+                    steps += 1;
+                }
+            }
+            Ok((self.size, capacity))
         }
     }
 
